@@ -1,5 +1,6 @@
 """C03 — exactly one terminal reply per request (DESIGN.md section 5 C03)."""
 from checks import _engine, C03_net
+from checks.C05 import long_wait_holes
 
 MANIFEST = dict(
     technique="Coq proof over the executable engine model (induction over action lists / invariants) and over the command-pool ownership model (no reply reads a recycled command) + differential correspondence check model vs real LockDB + connection-level monitor on a real server process (binary and text connections, real goroutine schedules)",
@@ -14,4 +15,4 @@ def run(ctx):
     if getattr(ctx, "replay", None):
         return _engine.replay(ctx, 'C03', MONITORS)
     return _engine.run_engine_check(ctx, 'C03', PROFILES, MONITORS, n_quick=500, n_thorough=20000,
-                                    subs=[('C03_net', C03_net)])
+                                    subs=[('C03_net', C03_net)], extra_cases=long_wait_holes)
